@@ -673,12 +673,23 @@ type TNode struct {
 
 type Topo struct {
 	Nodes []*TNode
+	// Order, when set, is the order in which the lines are printed (indexes
+	// into Nodes); real nodes print in dictionary order of ids, so replicas
+	// routinely come before their masters.
+	Order []int
 }
 
 // Text renders the CLUSTER NODES output as seen by node self (may be nil).
 func (t *Topo) Text(self *Node) string {
 	var sb strings.Builder
-	for _, tn := range t.Nodes {
+	nodes := t.Nodes
+	if len(t.Order) == len(t.Nodes) {
+		nodes = make([]*TNode, 0, len(t.Nodes))
+		for _, i := range t.Order {
+			nodes = append(nodes, t.Nodes[i])
+		}
+	}
+	for _, tn := range nodes {
 		flags := ""
 		if self != nil && tn.Node == self {
 			flags = "myself,"
